@@ -16,6 +16,7 @@ from .. import codec, tlc
 
 LEVEL = "translation_validation"
 MAXDEN = 10 ** 4
+LIMN = 10 ** 5  # keeps TLC's 32-bit cross-multiplications in range
 CLAUSES = ["Symmetric", "MatchesRef", "Rotated", "EigenInvariants", "RestrictSelects", "RestrictKeepsOriginal",
            "CopyEqual", "CopyIndependent"]
 # basis matrix of the additional constitutive parameter (= ExtraMat of Tensor.tla)
@@ -25,12 +26,15 @@ BUMP = 16.0
 
 
 def enc(x):
+    """double -> [n, d]; [0, 0] = not within 1e-9 of a rational with denominator <= MAXDEN, or huge (no reference value
+    is: entries are bounded by a few tens) - such a number fails every clause that mentions it"""
     try:
         if not np.isfinite(x):
             return [0, 0]
-        return codec.rat(float(x), MAXDEN)
+        r = codec.rat(float(x), MAXDEN)
     except codec.Inexact:
         return [0, 0]
+    return r if abs(r[0]) <= LIMN else [0, 0]
 
 
 def encvals(v):
